@@ -148,8 +148,8 @@ ASSUME Mode = "gen" =>
 (* once per binding ("unit", "e2e-lit", "e2e-var" in field binding).        *)
 (*     accepted  <=>  In(x, expr)          unless Open                      *)
 (***************************************************************************)
-JCases == TLCEval(IF Mode = "judge" THEN ndJsonDeserialize(IOEnv.CASES) ELSE <<>>)
-JObs   == TLCEval(IF Mode = "judge" THEN ndJsonDeserialize(IOEnv.OBS) ELSE <<>>)
+JCases == IF Mode = "judge" THEN ndJsonDeserialize(IOEnv.CASES) ELSE <<>>
+JObs   == IF Mode = "judge" THEN ndJsonDeserialize(IOEnv.OBS) ELSE <<>>
 
 ItemShape(it) == it.k \o (IF it.a.dec \/ it.b.dec THEN ".d" ELSE ".i")
 \* What kind of case this is - the stable identity of a deviation (one per kind, reported with exact inputs as
@@ -278,8 +278,8 @@ ASSUME Mode = "judgeload" =>
 (* Laws of the definition (checked over all items of the parameter bounds   *)
 (* and all arguments around them) and the manual's examples as facts.       *)
 (***************************************************************************)
-LB == TLCEval(ToSetOf(Params.bounds))
-LItems == TLCEval(Items(LB))
+LB == ToSetOf(Params.bounds)
+LItems == Items(LB)
 LX == UNION {{b - 10, b - 1, b, b + 1, b + 10} : b \in LB}
 N(i) == [v |-> 10 * i, dec |-> FALSE]
 D(t) == [v |-> t, dec |-> TRUE]
@@ -287,7 +287,8 @@ Members(e, S) == {x \in S : In(x, e)}
 Whole(lo, hi) == {10 * i : i \in lo..hi}
 Tenths(lo, hi) == lo..hi
 
-Laws ==
+\* (TLC evaluates every constant definition once at startup, in every mode: the guard keeps that cheap)
+Laws == Mode = "laws" =>
   \* a list is the union of its items; the order of the items does not matter
   /\ \A i \in LItems, j \in LItems, x \in LX : In(x, <<i, j>>) = (In(x, <<i>>) \/ In(x, <<j>>))
   /\ \A i \in LItems, j \in LItems, x \in LX : In(x, <<i, j>>) = In(x, <<j, i>>)
